@@ -273,7 +273,7 @@ impl World {
         if evolve && !self.srv.cfg.tenants.iter().any(|t| t.id == "delta") {
             self.srv.cfg.tenants.push(crate::common::srv::TenantSpec { id: "delta", key: Who::Delta.key().unwrap(), max_vectors: 1_000_000, max_qps: 0, admin: false, enabled: true });
         }
-        self.srv.start().map_err(|e| Failure::new("restart_failed", format!("server does not come back after SIGTERM: {}", e)))
+        self.srv.start().map_err(|e| crate::common::srv::start_failure("restart_failed", format!("server does not come back after SIGTERM: {}", e), &e))
     }
 
     /// Execute one RPC, return its canonical observable response.
